@@ -26,4 +26,12 @@ type SuccessRecorder interface {
 	OnSuccess(t *ast.Task) error
 }
 
+// StartRecorder is implemented by sources checkers that drop the recorded
+// fingerprint when the commands of the task are about to run (again), so that a
+// run that is interrupted part-way leaves no record of an earlier success for
+// the same sources behind.
+type StartRecorder interface {
+	OnStart(t *ast.Task) error
+}
+
 const pendingSuffix = ".pending"
